@@ -241,8 +241,14 @@ func c11Scenarios() []c11Scenario {
 			rec := &recorder{}
 			init := lruMState{cap: 2}
 			th := []func(){
-				func() { lruDo(c, rec, 0, lruIn{Op: "put", Key: "a", Val: 1}); lruDo(c, rec, 0, lruIn{Op: "get", Key: "b"}) },
-				func() { lruDo(c, rec, 1, lruIn{Op: "put", Key: "b", Val: 2}); lruDo(c, rec, 1, lruIn{Op: "get", Key: "a"}) },
+				func() {
+					lruDo(c, rec, 0, lruIn{Op: "put", Key: "a", Val: 1})
+					lruDo(c, rec, 0, lruIn{Op: "get", Key: "b"})
+				},
+				func() {
+					lruDo(c, rec, 1, lruIn{Op: "put", Key: "b", Val: 2})
+					lruDo(c, rec, 1, lruIn{Op: "get", Key: "a"})
+				},
 				func() {
 					lruDo(c, rec, 2, lruIn{Op: "put", Key: "c", Val: 3})
 					lruDo(c, rec, 2, lruIn{Op: "size"})
@@ -256,7 +262,10 @@ func c11Scenarios() []c11Scenario {
 			rec := &recorder{}
 			init := lruMState{cap: 2}
 			th := []func(){
-				func() { lruDo(c, rec, 0, lruIn{Op: "put", Key: "a", Val: 1}); lruDo(c, rec, 0, lruIn{Op: "get", Key: "a"}) },
+				func() {
+					lruDo(c, rec, 0, lruIn{Op: "put", Key: "a", Val: 1})
+					lruDo(c, rec, 0, lruIn{Op: "get", Key: "a"})
+				},
 				func() { lruDo(c, rec, 1, lruIn{Op: "put", Key: "a", Val: 2}); lruDo(c, rec, 1, lruIn{Op: "size"}) },
 				func() {
 					lruDo(c, rec, 2, lruIn{Op: "put", Key: "b", Val: 3})
@@ -274,7 +283,10 @@ func c11Scenarios() []c11Scenario {
 			init := lruMState{cap: 2, ttl: 10, ents: []lruMEnt{{"a", 7, 0}}}
 			th := []func(){
 				func() { lruDo(c, rec, 0, lruIn{Op: "get", Key: "a"}); lruDo(c, rec, 0, lruIn{Op: "get", Key: "a"}) },
-				func() { lruDo(c, rec, 1, lruIn{Op: "del", Key: "a"}); lruDo(c, rec, 1, lruIn{Op: "put", Key: "a", Val: 8}) },
+				func() {
+					lruDo(c, rec, 1, lruIn{Op: "del", Key: "a"})
+					lruDo(c, rec, 1, lruIn{Op: "put", Key: "a", Val: 8})
+				},
 				func() {
 					lruDo(c, rec, 2, lruIn{Op: "adv", Adv: 11})
 					lruDo(c, rec, 2, lruIn{Op: "sweep"})
@@ -396,7 +408,9 @@ func c11Scenarios() []c11Scenario {
 			th := []func(){
 				func() { res[0] = uDigest(uItems(w.db, w.db.SearchUniversal("git files", optN))) },
 				func() { res[1] = uDigest(uItems(w.db, w.db.SearchUniversal("git files", optN))) },
-				func() { res[2] = uDigest(uItems(w.db, w.db.SearchUniversal("comprss", Opts{Limit: 2, UseFuzzy: true}))) },
+				func() {
+					res[2] = uDigest(uItems(w.db, w.db.SearchUniversal("comprss", Opts{Limit: 2, UseFuzzy: true})))
+				},
 			}
 			return th, func() (string, string) {
 				if res[0] != w.soloAnswer("git files", optN) || res[1] != res[0] || res[2] != w.soloAnswer("comprss", Opts{Limit: 2, UseFuzzy: true}) {
@@ -543,13 +557,13 @@ func c11SelfTest() string {
 	e = &schedExplorer{Bound: 1, Body: func() ([]func(), func(*schedExec)) {
 		var a, b vsync.Mutex
 		return []func(){
-			func() { a.Lock(); b.Lock(); b.Unlock(); a.Unlock() },
-			func() { b.Lock(); a.Lock(); a.Unlock(); b.Unlock() },
-		}, func(s *schedExec) {
-			if s.Sched.Deadlock {
-				dead = true
+				func() { a.Lock(); b.Lock(); b.Unlock(); a.Unlock() },
+				func() { b.Lock(); a.Lock(); a.Unlock(); b.Unlock() },
+			}, func(s *schedExec) {
+				if s.Sched.Deadlock {
+					dead = true
+				}
 			}
-		}
 	}}
 	e.Explore()
 	if !dead {
@@ -789,7 +803,7 @@ func init() {
 	lib.Subs["c11race"] = c11RaceChild
 	lib.Register(&lib.Check{
 		ID: "C11", Level: "model_checking",
-		Rule: "stateless schedule exploration (iterative context bounding): 10 closed scenarios of 3 threads x 1-3 operations on the real objects - S1 LRU capacity 2 (put/get/size/stats on colliding keys), S10 LRU with two writers of one key, S2 LRU with TTL (get / delete+put / clock advance+sweep+stats), S3 CachedDatabase (cached searches, InvalidateCache, CleanupExpiredCache, GetCacheStats), S4 MonitoredDatabase (monitored searches + report), S5 metrics collector (two threads creating the same new series + histogram + GetAllMetrics), S6 direct SearchUniversal, S7 first searches on the loader's built-in fallback database, S8 SearchCache Put/Get vs InvalidatePattern, S9 counter/gauge increments - every interleaving with <=3 (quick) / <=4 (thorough) preemptions at every Lock/RLock/atomic operation of the code under test; per execution: search answers equal solo answers, the recorded LRU call/return history is linearizable w.r.t. the LRU+TTL model (porcupine), totals equal the calls made, no deadlock / panic. states = executions (each a distinct schedule), transitions = scheduling points, traces validated = executions. Beside it, per scenario, a free-running -race pass (200 / 3000 repetitions) of the same bodies built without the scheduler shims: dynamic analysis, reported under race_pass_runs, not part of the exhaustive count. non-trivial = distinct observed outcomes",
+		Rule:      "stateless schedule exploration (iterative context bounding): 10 closed scenarios of 3 threads x 1-3 operations on the real objects - S1 LRU capacity 2 (put/get/size/stats on colliding keys), S10 LRU with two writers of one key, S2 LRU with TTL (get / delete+put / clock advance+sweep+stats), S3 CachedDatabase (cached searches, InvalidateCache, CleanupExpiredCache, GetCacheStats), S4 MonitoredDatabase (monitored searches + report), S5 metrics collector (two threads creating the same new series + histogram + GetAllMetrics), S6 direct SearchUniversal, S7 first searches on the loader's built-in fallback database, S8 SearchCache Put/Get vs InvalidatePattern, S9 counter/gauge increments - every interleaving with <=3 (quick) / <=4 (thorough) preemptions at every Lock/RLock/atomic operation of the code under test; per execution: search answers equal solo answers, the recorded LRU call/return history is linearizable w.r.t. the LRU+TTL model (porcupine), totals equal the calls made, no deadlock / panic. states = executions (each a distinct schedule), transitions = scheduling points, traces validated = executions. Beside it, per scenario, a free-running -race pass (200 / 3000 repetitions) of the same bodies built without the scheduler shims: dynamic analysis, reported under race_pass_runs, not part of the exhaustive count. non-trivial = distinct observed outcomes",
 		Assume:    []string{"scheduling points are the sync and sync/atomic function-API operations of the repository packages (build overlay); plain memory accesses are covered only by the separate race pass", "the shim RWMutex lets new readers pass a waiting writer (superset of Go's behaviours)", "sequential consistency"},
 		QuickSecs: 200, ThorSecs: 1500, Graph: true,
 		Run: c11Run,
